@@ -25,7 +25,9 @@ RULE = ('2 models (feed-forward with subgroup, NLBGS cycle in a subgroup; promot
         'recorder attached to every subset of size <= 2 (quick) / <= 3 (thorough) of {problem, driver, '
         'root, subgroup, component, subgroup solver} x includes/excludes pattern pairs x record_* flag '
         'deviations (<= 2 flags flipped) x driver {run-once, DOE full factorial, SLSQP} x histories of '
-        'length <= 2 over {run_model, run_driver, record}; states = recorded cases compared, '
+        'length <= 2 over {run_model, run_driver, record, run_model/run_driver with a case prefix}; plus '
+        'the full product of record_* flag assignments x 12 pattern pairs on each system/solver '
+        'point; states = recorded cases compared, '
         'transitions = record calls observed by the shadow, traces = scenarios on which reader and '
         'reference agreed on every case; non-trivial = scenario records >= 2 cases and the selection '
         'is a proper non-empty subset of the variables')
@@ -50,7 +52,12 @@ PATTERNS = [(['*'], []), ([], []), (['*.y'], []), (['G.*'], []), (['*'], ['*c2*'
             (['nomatch'], []), (['*'], ['*'])]
 DRIVERS = ['run_once', 'doe', 'slsqp', 'doe12']
 HISTS = [('run_model',), ('run_driver',), ('run_driver', 'record'), ('run_model', 'run_driver'),
-         ('run_model', 'record'), ('run_driver', 'run_driver')]
+         ('run_model', 'record'), ('run_driver', 'run_driver'),
+         # a second run whose coordinates are made unique by a case prefix: the per-source and
+         # per-case queries are well defined across runs
+         ('run_driver', 'run_driver_p2'), ('run_model', 'run_driver_p2'), ('run_driver', 'run_model_p2')]
+# patterns that tell the recording system's promoted names from absolute names
+SYS_PATTERNS = PATTERNS + [(['c2.y'], []), (['*'], ['c2.y']), (['G.c2.y', 'y'], []), (['*'], ['G.*'])]
 FLAGS = {
     'problem': ['record_desvars', 'record_objectives', 'record_constraints', 'record_responses',
                 'record_inputs', 'record_outputs', 'record_residuals'],
@@ -110,7 +117,7 @@ def cases(tier, seed):
             for drv in DRIVERS:
                 for hist in HISTS:
                     i += 1
-                    if 'run_driver' not in hist and drv != 'run_once':
+                    if not any(h.startswith('run_driver') for h in hist) and drv != 'run_once':
                         continue
                     if drv == 'doe12' and not ('driver' in sub and len(sub) >= 2 and
                                                hist == ('run_driver',)):
@@ -127,6 +134,19 @@ def cases(tier, seed):
                     out.append({'model': mname, 'attach': list(sub), 'driver': drv,
                                 'hist': list(hist), 'pattern': [list(pat[0]), list(pat[1])],
                                 'flips': flips, 'palette': seed % 3})
+    # full product on the system / solver points: every record_* flag assignment x every pattern pair
+    for mname in ('ff', 'cyc'):
+        for pt in ('root', 'group', 'comp', 'solver'):
+            fl = FLAGS[pt][:3]
+            for pat in SYS_PATTERNS:
+                for bits in itertools.product((False, True), repeat=3):
+                    kind = 'solver' if pt == 'solver' else 'system'
+                    flips = [f for f, b in zip(fl, bits) if DEFAULTS[kind][f] != b]
+                    if tier == 'quick' and len(flips) == 3:
+                        continue
+                    out.append({'model': mname, 'attach': [pt], 'driver': 'run_once',
+                                'hist': ['run_model'], 'pattern': [list(pat[0]), list(pat[1])],
+                                'flips': [(pt, flips)], 'palette': seed % 3})
     return out
 
 
@@ -238,6 +258,10 @@ def run_scenario(sc, keep_prob=False):
                 prob.run_model()
             elif op == 'run_driver':
                 prob.run_driver()
+            elif op == 'run_driver_p2':
+                prob.run_driver(case_prefix='second')
+            elif op == 'run_model_p2':
+                prob.run_model(case_prefix='second')
             else:
                 prob.record('rec_%d' % len(shadow.events))
         prob.cleanup()
